@@ -13,6 +13,8 @@ import Anko.Model.Cli
 import Anko.Model.Builtins
 import Anko.Model.Eval
 import Anko.Model.EnvApi
+import Anko.Model.Literal
+import Anko.Model.PrecTable
 
 open Anko
 
@@ -94,8 +96,25 @@ def handleBuiltin (name : String) (v : Val) : String :=
   | "kindOf" => optShow (kindOfV v) (fun s => encodeVal (.str (strBytes s)))
   | _ => "bad-op"
 
+partial def decodePTree : Sexp → Option Pratt.Tree
+  | .list [.atom "a", .atom n] => n.toNat?.map Pratt.Tree.atom
+  | .list [.atom "b", .atom o, l, r] => do pure (.bin o (← decodePTree l) (← decodePTree r))
+  | _ => none
+
+def showTok : Pratt.Tok → String
+  | .atom a => s!"v{a}"
+  | .op o => o
+  | .lp => "("
+  | .rp => ")"
+
 def handleOps (cmd : String) (args : List Sexp) : String :=
   match cmd, args with
+  | "prmin", [t] => (match decodePTree t with
+      | some tr => " ".intercalate ((Pratt.pr PrecTable.genTbl 0 tr).map showTok)
+      | none => "bad-args")
+  | "tonumber", [.atom h] => (match Sexp.unhexBytes h.toList with
+      | some bs => (match toNumberInt bs with | some i => "ok " ++ encodeVal (.int i) | none => "err")
+      | none => "bad-args")
   | "range", args => handleRange args
   | "builtin", [.atom name, v] => (match decodeVal 1000 v with | some x => handleBuiltin name x | none => "bad-args")
   | "cli", args => handleCli args
